@@ -35,7 +35,7 @@ CLAIMED = {
     ref="DESIGN.md §4 C05"),
  "C02": dict(
     text="Pointer fidelity of name compression is decided in two lemmas: (A) for every usize position, the static compressor and the hash compressor's entry constructor remember a position only if it fits a 14-bit pointer, and truncation forgets exactly the positions at or beyond the new length; (B) for two names with symbolic label content appended through StaticCompressor, an independent RFC 1035 reader reconstructs exactly the appended names and pointers are only emitted for equal suffixes. Builder bookkeeping in one-push scripts: a push under any push limit succeeds exactly when it fits and a failed push leaves octets and counts untouched; going back from the additional section to any earlier section resets the counts and the octets; each header count increment adds exactly one and refuses to overflow; header setters touch only their own bits. The multi-push script and the stream length prefix are thorough-tier harnesses.",
-    note="A+B give fidelity at all offsets for the static compressor because its lookup does not depend on the absolute offset other than through the pointer encoding (argument, not solver result). TreeCompressor/HashCompressor beyond their position guards (hashbrown), BytesMut/Vec targets, op sequences longer than the scripted one, and messages beyond 72 octets are outside the claim. The builder-ops harness needs > 10 M SAT variables and may end 'not decided' (reported as inconclusive, never as pass).",
+    note="A+B give fidelity at all offsets for the static compressor because its lookup does not depend on the absolute offset other than through the pointer encoding (argument, not solver result). TreeCompressor/HashCompressor beyond their position guards (hashbrown), BytesMut/Vec targets, op sequences longer than the scripted one, and messages beyond 72 octets are outside the claim. The multi-push builder script (plain and stream target, > 10 M SAT variables, ~10 min each with 14 GB) is in the thorough tier; the message-level round trips through the compressor do not finish and are in the unregistered experimental tier.",
     technique=KANI + "; guard lemmas via cfg-guarded hooks + differential against an independent RFC 1035 name reader",
     ref="DESIGN.md §4 C02"),
  "C11": dict(
@@ -50,17 +50,17 @@ CLAIMED = {
     ref="DESIGN.md §4 C12"),
  "C13": dict(
     text="The NSEC type-bitmap builder: for symbolic record types (any window, any bit) added in any order, contains(t) <=> t was added, the wire form is well-formed per RFC 4034 4.1.2 (strictly ascending windows, length 1..32, last octet non-zero) and is accepted by the library's own validator.",
-    note="Quick: 1 type, or 2 types in one window; thorough: 2-3 types in distinct windows and the iterator. generate_nsecs / generate_nsec3s (SortedRecords, ring SHA-1) are outside the claim.",
+    note="Quick: 1 type through the builder, and contains() on arbitrary well-formed two-window wire bitmaps; thorough: 2 types in the same or in distinct windows. 3 windows and the bit-by-bit iterator run out of memory (experimental tier, not registered). generate_nsecs / generate_nsec3s (RecordsIter, cut tracking, ring SHA-1) are outside the claim.",
     technique=KANI + "; differential against an independent RFC 4034 4.1.2 bitmap reader",
     ref="DESIGN.md §4 C13"),
  "C01": dict(
     text="The read-side kernels that CBMC can execute: ParsedName::skip (used by every section hop and record skip) accepts a name exactly when its uncompressed part is at most 255 octets and stops right behind it, for all four-label names up to the limit; the slice label iterator (Label::iter_slice) terminates on every 6-octet input from every start, stays fused after None, and never panics; the message view accepts exactly octet strings of at least 12 octets and every header/flag/count accessor returns the RFC 1035 bit field of the header octets.",
-    note="Typed EDNS option parsing has a thorough-tier harness that runs out of memory (reported undecided). Everything that goes through ParsedName::parse_ref - Question/record parsing, section iteration, canonical_name, is_answer, typed RDATA with names, display - is outside the claim: CBMC's symbolic execution of parse_ref's two nested loops does not finish even on 4 octets or on fully concrete input (measurements in DESIGN section 2), so two of the three known counterexamples of this property (ANCOUNT overflow in canonical_name, non-XFR question in the XFR interpreter) are not decided here. Typed RDATA parsing for name-free types is covered under C05.",
+    note="Typed EDNS option parsing was tried and runs out of memory (experimental tier, not registered). Everything that goes through ParsedName::parse_ref - Question/record parsing, section iteration, canonical_name, is_answer, typed RDATA with names, display - is outside the claim: CBMC's symbolic execution of parse_ref's two nested loops does not finish even on 4 octets or on fully concrete input (measurements in DESIGN section 2), so two of the three known counterexamples of this property (ANCOUNT overflow in canonical_name, non-XFR question in the XFR interpreter) are not decided here. Typed RDATA parsing for name-free types is covered under C05.",
     technique=KANI + "; termination via unwinding assertions with a pigeonhole bound, non-termination counterexamples replayed natively from the CBMC trace",
     ref="DESIGN.md §4 C01"),
  "C09": dict(
     text="The sequential kernel of snapshot isolation, the per-item version vector: for a committed history and a writer working at the next version, every reader pinned at a committed version keeps seeing exactly its value through any two writer operations (update/remove/rollback), the writer sees its own last write, and rollback makes the open version invisible to everyone; the writer's version is strictly newer than every reader version within the RFC 1982 window, also across the 2^32 wrap.",
-    note="Quick tier decides histories of one committed entry (CBMC runs out of memory on the Vec growth paths for empty and two-entry histories; those variants are thorough-tier and may end undecided). Real-thread schedules, the async write mutex, publication of the new version on commit, walk() and the zone tree itself (hashbrown + Arc + locks) are outside the claim: Kani does not model concurrency.",
+    note="Histories of one committed entry are decided (CBMC runs out of memory on the Vec growth paths for empty and two-entry histories; those variants are in the unregistered experimental tier). Real-thread schedules, the async write mutex, publication of the new version on commit, walk() and the zone tree itself (hashbrown + Arc + locks) are outside the claim: Kani does not model concurrency.",
     technique=KANI + "; differential against a version->value reference model, hook re-exports the private Versioned type",
     ref="DESIGN.md §4 C09"),
  "C15": dict(
